@@ -24,6 +24,9 @@ type PropFunc struct {
 	// Only: when set, only obligations whose name contains one of these substrings belong to the check
 	// (e.g. the call-site precondition of one callee inside a function too large to verify in full)
 	Only []string `json:"only,omitempty"`
+	// Except: obligations whose name contains one of these substrings are NOT part of the check (they do not
+	// discharge within the budget); each is listed in the evidence as not verified
+	Except []string `json:"except,omitempty"`
 }
 
 type StaticCheck struct {
@@ -255,6 +258,34 @@ func (r *checkRun) genFunc(pf PropFunc, macro bool) *VC {
 			r.notes[fmt.Sprintf("%s: only the obligations matching %v are part of this check (%d of %d generated); the rest of the function is not verified", qn, pf.Only, len(keep), total)] = true
 			if len(keep) == 0 {
 				r.bindErrs = append(r.bindErrs, fmt.Sprintf("%s: no obligation matches %v (vacuous selection)", qn, pf.Only))
+			}
+		}
+	}
+	if len(pf.Except) > 0 {
+		var keep []*Obligation
+		hit := map[string]int{}
+		for _, o := range vc.obls {
+			drop := false
+			for _, sub := range pf.Except {
+				if strings.Contains(o.Name, sub) {
+					drop = true
+					hit[sub]++
+					if !macro {
+						r.notes[fmt.Sprintf("%s: obligation %s is excluded from this check (listed under except: it does not discharge within the budget) and is NOT verified", qn, o.Name)] = true
+					}
+					break
+				}
+			}
+			if !drop {
+				keep = append(keep, o)
+			}
+		}
+		vc.obls = keep
+		if !macro {
+			for _, sub := range pf.Except {
+				if hit[sub] == 0 {
+					r.bindErrs = append(r.bindErrs, fmt.Sprintf("%s: except pattern %q matches no obligation (stale exclusion)", qn, sub))
+				}
 			}
 		}
 	}
